@@ -45,6 +45,9 @@ OBLIGATIONS = [
        functions=('cds_lfht_resize', '_do_cds_lfht_resize', 'resize_target_update_count'), native_custom=replay_resize, small=True),
 ]
 
+OBLIGATIONS.append(Ob(name='C09.O4.partition_helper', harness='C09/partition.c', entry='h_partition', defines=D, mode='legacy', replace=('cds_lfht_get_count_order_ulong',), unwind=18, min_covers=5, checks=('--bounds-check', '--signed-overflow-check', '--div-by-zero-check'), timeout=600,
+    functions=('partition_resize_helper',),
+    desc='partition_resize_helper for every len = 2^k (k <= 40), every CPU mask, work-array allocation failure and pthread_create failing at ANY worker: the ranges given to the workers plus the caller\'s fallback cover [0,len) consecutively - every bucket index exactly once; workers joined, signals blocked during creation, mask restored, work array freed once'))
 META = {
     'level': 'proof',
     'trusted_base': ['CBMC 6.11 (dfcc contract instrumentation, SAT back end)', 'fls_u64: bsr inline asm replaced by an assumed instruction contract',
